@@ -2016,7 +2016,8 @@ class Interp(object):
 
 _NDARRAY_ATTRS = frozenset(['real', 'imag', 'shape', 'size', 'ndim', 'conj', 'conjugate', 'clip', 'ravel',
                             'flatten', 'T', 'flat', 'squeeze', 'item', 'dtype', 'reshape', 'sum', 'any', 'all',
-                            'max', 'min', 'astype', 'copy', 'transpose', 'tolist', 'dot', 'tobytes', 'tostring'])
+                            'max', 'min', 'astype', 'copy', 'transpose', 'tolist', 'dot', 'tobytes', 'tostring', 'prod', 'mean',
+                            'cumsum', 'cumprod', 'argmin', 'argmax', 'nonzero', 'take', 'repeat'])
 
 
 def _unwrap0(fn):
